@@ -1216,7 +1216,6 @@ theorem mutate_parent_content (H : Hash) (s : Store) (c p key : Nat) (op : Op) (
   have hpmem : (p, [] ++ [key]) ∈ pathsTo s (f + 1 + 1) (f + 1) := by
     simp only [pathsTo, hh, List.mem_cons, List.mem_map]
     refine .inr ⟨(p, []), ?_, rfl⟩
-    simp only [pathsTo]
     cases hookOf s p with
     | none => simp
     | some pk => simp
